@@ -5,16 +5,35 @@ import StorageModel.Base.Bytes
   reads it with default false), the system / ordinary MutateContext of boltz/tx_context.go and the
   constraint dispatch of boltz/indexes.go + boltz/store_crud.go (ProcessBeforeUpdate before the
   entity is persisted — on an errored bucket every typed setter is a no-op —, ProcessAfterUpdate
-  after it, ProcessBeforeDelete before the bucket is deleted).
+  after it, ProcessBeforeDelete before the bucket is deleted) — **including every path by which an
+  operation on another entity or through another store reaches an entity of the constrained store**.
 
-  One store of ext-entities with a `name` field and the system-entity constraint.  An entity
-  bucket is modelled by everything `BaseExtEntity` persists: the stored `isSystem` key (`none` =
-  key absent), `createdAt` / `updatedAt` (either the clock or a value carried by the entity), the
-  tags, plus the name.  `SetBaseValues` / `CreateBaseValues` / `UpdateBaseValues` are followed
-  branch by branch, including the `Migrate` field of the in-memory entity, which steers
-  `CreateBaseValues` (and nothing else).  Every
+  The universe (harness/c16.go wires exactly this):
+
+    O  "owners"   plain entities (ids)
+    S  "foos"     ext-entities with a `name`, an fk `owner` → O (nullable, CascadeDelete: deleting an
+                  owner runs `S.DeleteById(ctx.Ctx, …)` for every referring foo, in id order, stopping
+                  at the first error — `fkDeleteCascadeConstraint.ProcessBeforeDelete`; which context
+                  that nested call gets is `cascadeCtx`), a link set `peers` ↔ O (link collections take
+                  a bare transaction: no context at all; deleting an owner unlinks it everywhere) and
+                  the system-entity constraint (registered after the fk constraint)
+    C  child store of S: a sub-bucket of the parent's entity bucket holding `level`; `PersistEntity`
+                  persists the parent part through `ctx.GetParentContext()`, which keeps `IsCreate`:
+                  `C.Create` over an existing parent RE-RUNS `CreateBaseValues` on the parent bucket;
+                  the indexing context of C has S's as its `Parent`, so S's constraints (fk, system
+                  check) run first on every C operation; `C.DeleteById` is `S.DeleteById`
+    `S.DeleteWhere(ctx, q)` = `S.DeleteById(ctx, id)` for every match in id order, first error stops.
+
+  An entity bucket is modelled by everything `BaseExtEntity` persists: the stored `isSystem` key
+  (`none` = key absent), `createdAt` / `updatedAt` (either the clock or a value carried by the
+  entity), the tags, plus name, owner, the child sub-bucket and the link set.  `SetBaseValues` /
+  `CreateBaseValues` / `UpdateBaseValues` are followed branch by branch, including the `Migrate`
+  field of the in-memory entity, which steers `CreateBaseValues` (and nothing else).  Every
   operation returns the state reached *including partial writes* and the Go error; `commitTx`
-  models `Db.Update` (a body that returns an error is rolled back).
+  models `Db.Update` (a body that returns an error is rolled back).  A nested
+  `Db.Update(ctx.GetSystemContext(), …)` inside a transaction runs its body in the same bbolt
+  transaction with that context (`DbImpl.Update`: `ctx.Tx() != nil → fn(ctx)`), i.e. it is the
+  per-operation context flag `sys` of the model.
 -/
 namespace StorageModel.C16
 
@@ -32,6 +51,9 @@ def get : Map κ ν → κ → Option ν
 def del (m : Map κ ν) (k : κ) : Map κ ν := m.filter (fun p => p.1 ≠ k)
 
 def put (m : Map κ ν) (k : κ) (v : ν) : Map κ ν := (k, v) :: del m k
+
+/-- all the given keys removed -/
+def delAll (m : Map κ ν) (ks : List κ) : Map κ ν := m.filter (fun p => decide (p.1 ∉ ks))
 
 theorem get_del (m : Map κ ν) (k k' : κ) : get (del m k) k' = if k = k' then none else get m k' := by
   induction m with
@@ -58,6 +80,20 @@ theorem get_put (m : Map κ ν) (k k' : κ) (v : ν) :
 
 end Map
 
+/-! ### the order in which bbolt hands out ids (only the *partial* state after a refused cascade
+    depends on it) -/
+
+class KeyOrd (κ : Type) where
+  le : κ → κ → Bool
+
+def insertKey {κ : Type} [KeyOrd κ] (x : κ) : List κ → List κ
+  | [] => [x]
+  | y :: ys => if KeyOrd.le x y then x :: y :: ys else y :: insertKey x ys
+
+def sortKeys {κ : Type} [KeyOrd κ] : List κ → List κ
+  | [] => []
+  | x :: xs => insertKey x (sortKeys xs)
+
 /-! ### state -/
 
 /-- a persisted timestamp: `time.Now()` (not compared) or a value carried by the entity -/
@@ -66,8 +102,9 @@ inductive Stamp (T : Type)
   | given (t : T)
   deriving DecidableEq, Repr
 
-/-- an entity bucket: what `BaseExtEntity` persists, and the name -/
-structure Ent (N T : Type) where
+/-- an entity bucket of S: what `BaseExtEntity` persists, name, owner, the child store's sub-bucket
+    and the link set -/
+structure Ent (K N T : Type) where
   /-- the stored `isSystem` key: `none` = absent (read back as false) -/
   flag : Option Bool
   name : N
@@ -75,16 +112,28 @@ structure Ent (N T : Type) where
   tags : Option N
   created : Stamp T
   updated : Stamp T
+  /-- fk `owner` (`none` = the empty string) -/
+  owner : Option K
+  /-- the child store's data (`none` = no child sub-bucket) -/
+  level : Option N
+  /-- link set `peers` -/
+  peers : List K
   deriving DecidableEq, Repr
 
-abbrev St (K N T : Type) := Map K (Ent N T)
+structure St (K N T : Type) where
+  ents : Map K (Ent K N T)
+  /-- the ids present in store O -/
+  owners : List K
+  deriving Repr
+
+def St.empty {K N T : Type} : St K N T := { ents := [], owners := [] }
 
 /-- `LoadBaseValues`: `bucket.GetBoolWithDefault(FieldIsSystemEntity, false)` -/
-def Ent.isSystem {N T : Type} (e : Ent N T) : Bool := e.flag.getD false
+def Ent.isSystem {K N T : Type} (e : Ent K N T) : Bool := e.flag.getD false
 
 /-- the in-memory entity handed to `Create` / `Update`: every field of `BaseExtEntity` (besides the
-    id) and the name -/
-structure Vals (N T : Type) where
+    id), the name and the owner -/
+structure Vals (K N T : Type) where
   /-- `IsSystem` -/
   flag : Bool
   /-- `Migrate` -/
@@ -94,10 +143,11 @@ structure Vals (N T : Type) where
   uAt : T
   tags : Option N
   name : N
+  owner : Option K
   deriving Repr
 
 /-- `BaseExtEntity.CreateBaseValues` -/
-def createBaseValues {N T : Type} (v : Vals N T) (e : Ent N T) : Ent N T :=
+def createBaseValues {K N T : Type} (v : Vals K N T) (e : Ent K N T) : Ent K N T :=
   -- if entity.Migrate { SetTimeP(createdAt, &entity.CreatedAt); SetTimeP(updatedAt, &entity.UpdatedAt) } else { now, now }
   let e1 := if v.migrate then { e with created := .given v.cAt, updated := .given v.uAt }
             else { e with created := .now, updated := .now }
@@ -109,21 +159,23 @@ def createBaseValues {N T : Type} (v : Vals N T) (e : Ent N T) : Ent N T :=
 /-- `BaseExtEntity.UpdateBaseValues`: `updatedAt := now` (nil checker), tags through the field
     checker; `isSystem`, `createdAt` and the entity's `Migrate` / `IsSystem` / timestamps are not
     looked at -/
-def updateBaseValues {N T : Type} (v : Vals N T) (setTags : Bool) (e : Ent N T) : Ent N T :=
+def updateBaseValues {K N T : Type} (v : Vals K N T) (setTags : Bool) (e : Ent K N T) : Ent K N T :=
   { e with updated := .now, tags := if setTags then v.tags else e.tags }
 
 /-- `BaseExtEntity.SetBaseValues`: `if ctx.IsCreate { CreateBaseValues } else { UpdateBaseValues }` -/
-def setBaseValues {N T : Type} (isCreate : Bool) (v : Vals N T) (setTags : Bool) (e : Ent N T) : Ent N T :=
+def setBaseValues {K N T : Type} (isCreate : Bool) (v : Vals K N T) (setTags : Bool) (e : Ent K N T) : Ent K N T :=
   if isCreate then createBaseValues v e else updateBaseValues v setTags e
 
-/-- `PersistEntity`: `entity.SetBaseValues(ctx); ctx.SetString("name", entity.Name)` -/
-def persist {N T : Type} (isCreate : Bool) (v : Vals N T) (setName setTags : Bool) (e : Ent N T) : Ent N T :=
+/-- S's `PersistEntity`: `entity.SetBaseValues(ctx); ctx.SetString("name", …); ctx.SetString("owner", …)` -/
+def persist {K N T : Type} (isCreate : Bool) (v : Vals K N T) (setName setTags setOwner : Bool) (e : Ent K N T) :
+    Ent K N T :=
   let e1 := setBaseValues isCreate v setTags e
-  if setName then { e1 with name := v.name } else e1
+  let e2 := if setName then { e1 with name := v.name } else e1
+  if setOwner then { e2 with owner := v.owner } else e2
 
 /-- the freshly created, still empty entity bucket (the name slot is filled by `persist`) -/
-def blankEnt {N T : Type} (n : N) : Ent N T :=
-  { flag := none, name := n, tags := none, created := .now, updated := .now }
+def blankEnt {K N T : Type} (n : N) : Ent K N T :=
+  { flag := none, name := n, tags := none, created := .now, updated := .now, owner := none, level := none, peers := [] }
 
 inductive Err
   | sysCreate   -- "cannot create system … in a non-system context"
@@ -132,25 +184,59 @@ inductive Err
   | notFound
   | exists
   | blank
+  | noOwner     -- fk constraint: the owner does not exist (also: the far end of a link does not exist)
+  | viaSysDelete -- "cannot delete system …" coming out of a cascade / DeleteWhere
   deriving DecidableEq, Repr
 
+/-- the failures that are raised before anything was written: a caller who ignores one of these
+    and commits has committed nothing of the failed operation.  Every other failure leaves partial
+    writes in the open transaction (the entity of a refused create, the referrers deleted before a
+    refused one, …). -/
+def Err.ignorable : Err → Bool
+  | .notFound | .exists | .blank | .sysUpdate | .sysDelete => true
+  | _ => false
+
+/-- `S.DeleteWhere` queries used by the harness -/
+inductive Query (K N : Type)
+  | all
+  | name (n : N)
+  | owner (o : K)
+  /-- `isSystem = b`: compares the STORED key (an absent key matches neither) -/
+  | flag (b : Bool)
+  deriving Repr
+
 inductive Op (K N T : Type)
-  /-- `store.Create(ctx, entity)`; `sys` = the context is a system context -/
-  | create (sys : Bool) (id : K) (blank : Bool) (v : Vals N T)
-  /-- `store.Update(ctx, entity, checker)`; `setName` / `setTags` = the checker is nil or lists the
-      field (whether it lists "isSystem", "createdAt", … is irrelevant to the code and therefore not
-      a parameter of the model; the harness varies it) -/
-  | update (sys : Bool) (id : K) (v : Vals N T) (setName setTags : Bool)
+  /-- `S.Create(ctx, entity)`; `sys` = the context is a system context -/
+  | create (sys : Bool) (id : K) (blank : Bool) (v : Vals K N T)
+  /-- `S.Update(ctx, entity, checker)`; `setName` / `setTags` / `setOwner` = the checker is nil or
+      lists the field (whether it lists "isSystem", "createdAt", … is irrelevant to the code and
+      therefore not a parameter of the model; the harness varies it) -/
+  | update (sys : Bool) (id : K) (v : Vals K N T) (setName setTags setOwner : Bool)
   | delete (sys : Bool) (id : K)
+  /-- `C.Create`: the parent part may or may not exist already -/
+  | ccreate (sys : Bool) (id : K) (blank : Bool) (v : Vals K N T) (lvl : N)
+  | cupdate (sys : Bool) (id : K) (v : Vals K N T) (setName setTags setOwner setLevel : Bool) (lvl : N)
+  /-- `C.DeleteById` = `store.parent.DeleteById(ctx, id)` -/
+  | cdelete (sys : Bool) (id : K)
+  | ocreate (id : K) (blank : Bool)
+  /-- `O.DeleteById`: cascades to the referring entities of S -/
+  | odelete (sys : Bool) (id : K)
+  | deleteWhere (sys : Bool) (q : Query K N)
+  /-- `peers.AddLinks(tx, foo, owner)` / `RemoveLinks`: no context -/
+  | link (sid oid : K)
+  | unlink (sid oid : K)
   | read (id : K)
   deriving Repr
 
 section
 variable {K N T : Type} [DecidableEq K]
 
+def St.putEnt (s : St K N T) (id : K) (e : Ent K N T) : St K N T := { s with ents := s.ents.put id e }
+def St.delEnt (s : St K N T) (id : K) : St K N T := { s with ents := s.ents.del id }
+
 /-- `systemEntityConstraint.checkOperation`: the STORED flag, and the kind of context -/
 def refused (s : St K N T) (id : K) (sys : Bool) : Bool :=
-  match s.get id with
+  match s.ents.get id with
   | some e => e.isSystem && !sys
   | none => false
 
@@ -158,36 +244,149 @@ structure Out (K N T : Type) where
   st : St K N T
   err : Option Err := none
 
+/-- `fkConstraint.ProcessAfterUpdate`: an empty value is fine (nullable), anything else must exist in O -/
+def ownerOk (s : St K N T) : Option K → Bool
+  | none => true
+  | some o => decide (o ∈ s.owners)
+
+/-- the context `fkDeleteCascadeConstraint.ProcessBeforeDelete` hands to the nested
+    `targetStore.DeleteById`: `ctx.Ctx`, the caller's own -/
+def cascadeCtx (sys : Bool) : Bool := sys
+
+/-- `S.DeleteById(ctx, id)` for every id of the list (a cursor never yields a missing id: deleting
+    one is a no-op); stops at the first refusal, keeping what was deleted so far -/
+def delMany (sys : Bool) : St K N T → List K → St K N T × Option Err
+  | s, [] => (s, none)
+  | s, id :: ids => if refused s id sys then (s, some .sysDelete) else delMany sys (s.delEnt id) ids
+
+/-- what `PersistEntity` with `IsCreate` leaves in bucket `e0` (`lvl`: through the child store, whose
+    strategy persists the parent part through `GetParentContext()` — `CreateBaseValues` runs on the
+    parent bucket — and then its own `level`) -/
+def mkEnt (v : Vals K N T) (lvl : Option N) (e0 : Ent K N T) : Ent K N T :=
+  let e1 := persist true v true true true e0
+  match lvl with
+  | some l => { e1 with level := some l }
+  | none => e1
+
+/-- body of `Create` once the id checks have passed, writing into bucket `e0` (a fresh one, or —
+    for the child store — the parent's existing bucket): `PersistEntity`, then
+    `ProcessAfterUpdate`: S's fk constraint, then the system check **on what is now stored** -/
+def createOn (s : St K N T) (sys : Bool) (id : K) (v : Vals K N T) (lvl : Option N) (e0 : Ent K N T) : Out K N T :=
+  let s1 := s.putEnt id (mkEnt v lvl e0)
+  if !ownerOk s v.owner then { st := s1, err := some .noOwner }
+  else if refused s1 id sys then { st := s1, err := some .sysCreate }
+  else { st := s1 }
+
+/-- what `PersistEntity` without `IsCreate` makes of the stored bucket `e` (`lvl`: through the child
+    store: `(the checker lets "level" through, the value)`) -/
+def updEnt (v : Vals K N T) (sn st so : Bool) (lvl : Option (Bool × N)) (e : Ent K N T) : Ent K N T :=
+  let e1 := persist false v sn st so e
+  match lvl with
+  | some (true, l) => { e1 with level := some l }
+  | _ => e1
+
+/-- body of `Update` on the stored bucket `e`: `ProcessBeforeUpdate` (the system check puts its
+    error into the bucket's error holder, so every setter of `PersistEntity` is a no-op and
+    `bucket.Err` is returned), `PersistEntity`, `ProcessAfterUpdate` (fk: only a CHANGED owner is
+    looked up) -/
+def updateOn (s : St K N T) (sys : Bool) (id : K) (v : Vals K N T) (sn st so : Bool) (lvl : Option (Bool × N))
+    (e : Ent K N T) : Out K N T :=
+  if refused s id sys then { st := s, err := some .sysUpdate }
+  else
+    let e2 := updEnt v sn st so lvl e
+    let s1 := s.putEnt id e2
+    if decide (e2.owner ≠ e.owner) && !ownerOk s e2.owner then { st := s1, err := some .noOwner } else { st := s1 }
+
+/-- `S.DeleteById` (also reached through C): not found; `ProcessBeforeDelete` — for an entity with
+    child data the child store's constraints run first, and they start with S's (`Parent`) —; else
+    the bucket, including the child sub-bucket and the link set, is deleted -/
+def deleteOne (s : St K N T) (sys : Bool) (id : K) : Out K N T :=
+  match s.ents.get id with
+  | none => { st := s, err := some .notFound }
+  | some _ => if refused s id sys then { st := s, err := some .sysDelete } else { st := s.delEnt id }
+
+def unlinkEnt (o : K) (e : Ent K N T) : Ent K N T := { e with peers := e.peers.filter (· ≠ o) }
+
+/-- link clean-up when an owner is deleted: it disappears from every link set -/
+def unlinkAll (m : Map K (Ent K N T)) (o : K) : Map K (Ent K N T) := m.map fun p => (p.1, unlinkEnt o p.2)
+
+def Query.eval (q : Query K N) [DecidableEq N] (e : Ent K N T) : Bool :=
+  match q with
+  | .all => true
+  | .name n => decide (e.name = n)
+  | .owner o => decide (e.owner = some o)
+  | .flag b => decide (e.flag = some b)
+
+variable [KeyOrd K]
+
+/-- the entities of S whose `owner` is `o`, in cursor order -/
+def refs (s : St K N T) (o : K) : List K :=
+  sortKeys ((s.ents.filter fun p => decide (p.2.owner = some o)).map (·.1))
+
+def matching [DecidableEq N] (s : St K N T) (q : Query K N) : List K :=
+  sortKeys ((s.ents.filter fun p => q.eval p.2).map (·.1))
+
+variable [DecidableEq N]
+
 def step (s : St K N T) : Op K N T → Out K N T
   | .create sys id blank v =>
     if blank then { st := s, err := some .blank }
-    else match s.get id with
+    else match s.ents.get id with
     | some _ => { st := s, err := some .exists }
-    | none =>
-      -- PersistEntity (IsCreate, nil checker) → SetBaseValues → CreateBaseValues
-      let s1 := s.put id (persist true v true true (blankEnt v.name))
-      -- ProcessAfterUpdate (IsCreate): checkOperation on what is now stored
-      if refused s1 id sys then { st := s1, err := some .sysCreate } else { st := s1 }
-  | .update sys id v setName setTags =>
-    match s.get id with
+    | none => createOn s sys id v none (blankEnt v.name)
+  | .ccreate sys id blank v lvl =>
+    if blank then { st := s, err := some .blank }
+    else match s.ents.get id with
+    | some e =>
+      -- `IsEntityPresent` of the child store looks at the child sub-bucket only
+      if e.level.isSome then { st := s, err := some .exists } else createOn s sys id v (some lvl) e
+    | none => createOn s sys id v (some lvl) (blankEnt v.name)
+  | .update sys id v sn st so =>
+    -- (an entity with child data is handed to `C.Update` with its stored level: same effect)
+    match s.ents.get id with
+    | none => { st := s, err := some .notFound }
+    | some e => updateOn s sys id v sn st so none e
+  | .cupdate sys id v sn st so sl lvl =>
+    match s.ents.get id with
     | none => { st := s, err := some .notFound }
     | some e =>
-      -- ProcessBeforeUpdate: the error lands in the bucket's error holder; every setter of
-      -- PersistEntity then refuses to write; ProcessAfterUpdate is skipped; bucket.Err is returned
-      if refused s id sys then { st := s, err := some .sysUpdate }
-      else
-        -- PersistEntity (not IsCreate) → SetBaseValues → UpdateBaseValues
-        { st := s.put id (persist false v setName setTags e) }
-  | .delete sys id =>
-    match s.get id with
+      if e.level.isNone then { st := s, err := some .notFound } else updateOn s sys id v sn st so (some (sl, lvl)) e
+  | .delete sys id => deleteOne s sys id
+  | .cdelete sys id => deleteOne s sys id
+  | .ocreate id blank =>
+    if blank then { st := s, err := some .blank }
+    else if id ∈ s.owners then { st := s, err := some .exists }
+    else { st := { s with owners := id :: s.owners } }
+  | .odelete sys id =>
+    if id ∈ s.owners then
+      -- ProcessBeforeDelete: fkDeleteCascadeConstraint
+      let r := delMany (cascadeCtx sys) s (refs s id)
+      match r.2 with
+      | some _ => { st := r.1, err := some .viaSysDelete }
+      | none =>
+        -- cleanupLinks, then the bucket goes
+        { st := { ents := unlinkAll r.1.ents id, owners := r.1.owners.filter (· ≠ id) } }
+    else { st := s, err := some .notFound }
+  | .deleteWhere sys q =>
+    let r := delMany sys s (matching s q)
+    match r.2 with
+    | some _ => { st := r.1, err := some .viaSysDelete }
+    | none => { st := r.1 }
+  | .link sid oid =>
+    match s.ents.get sid with
     | none => { st := s, err := some .notFound }
-    | some _ =>
-      if refused s id sys then { st := s, err := some .sysDelete }
-      else { st := s.del id }
+    | some e =>
+      -- the local entry is written first, then the far side is looked up
+      let s1 := s.putEnt sid { e with peers := oid :: e.peers.filter (· ≠ oid) }
+      if oid ∈ s.owners then { st := s1 } else { st := s1, err := some .noOwner }
+  | .unlink sid oid =>
+    match s.ents.get sid with
+    | none => { st := s, err := some .notFound }
+    | some e => { st := s.putEnt sid (unlinkEnt oid e) }
   | .read _ => { st := s }
 
-/-- the body of one `Db.Update`.  `keepGoing`: the caller ignores every error except a refused
-    create and carries on (and finally commits); a refused create always aborts.
+/-- the body of one `Db.Update`.  `keepGoing`: the caller ignores the ignorable errors and carries
+    on (and finally commits); any other error aborts.
     Returns the state reached and whether the body failed. -/
 def runOps (keepGoing : Bool) : St K N T → List (Op K N T) → St K N T × Bool
   | s, [] => (s, false)
@@ -195,7 +394,7 @@ def runOps (keepGoing : Bool) : St K N T → List (Op K N T) → St K N T × Boo
     let o := step s op
     match o.err with
     | none => runOps keepGoing o.st ops
-    | some e => if keepGoing && e ≠ .sysCreate then runOps keepGoing o.st ops else (o.st, true)
+    | some e => if keepGoing && e.ignorable then runOps keepGoing o.st ops else (o.st, true)
 
 def commitTx (s : St K N T) (tx : Bool × List (Op K N T)) : St K N T :=
   let r := runOps tx.1 s tx.2
@@ -205,37 +404,131 @@ def runHist (s : St K N T) (txs : List (Bool × List (Op K N T))) : St K N T := 
 
 /-! ### specification: what the property text says -/
 
-/-- abstract entity: is it a system entity (fixed at creation), and the mutable rest -/
-structure SEnt (N T : Type) where
+/-- abstract entity: is it a system entity (fixed at creation), and the mutable rest (the link set
+    is outside the property: link collections know no context) -/
+structure SEnt (K N T : Type) where
   isSys : Bool
   name : N
   tags : Option N
   created : Stamp T
   updated : Stamp T
+  owner : Option K
+  level : Option N
   deriving DecidableEq, Repr
 
-abbrev SSt (K N T : Type) := Map K (SEnt N T)
+structure SSt (K N T : Type) where
+  ents : Map K (SEnt K N T)
+  owners : List K
+  deriving Repr
 
-/-- `none` = the operation fails (and then changes nothing) -/
-def sstep (s : SSt K N T) : Op K N T → Option (SSt K N T)
+def SSt.empty : SSt K N T := { ents := [], owners := [] }
+
+inductive SRes (K N T : Type)
+  | ok (s : SSt K N T)
+  /-- the operation fails and changes nothing; `ignorable` = a keep-going caller carries on -/
+  | fail (ignorable : Bool)
+
+def sownerOk (s : SSt K N T) : Option K → Bool
+  | none => true
+  | some o => decide (o ∈ s.owners)
+
+/-- an ordinary context may not touch this id -/
+def srefused (s : SSt K N T) (sys : Bool) (id : K) : Bool :=
+  match s.ents.get id with
+  | some e => e.isSys && !sys
+  | none => false
+
+def snew (v : Vals K N T) (isSys : Bool) (lvl : Option N) : SEnt K N T :=
+  { isSys := isSys, name := v.name, tags := v.tags,
+    created := if v.migrate then .given v.cAt else .now,
+    updated := if v.migrate then .given v.uAt else .now,
+    owner := v.owner, level := lvl }
+
+def supdate (s : SSt K N T) (sys : Bool) (id : K) (v : Vals K N T) (sn st so : Bool) (lvl : Option N)
+    (e : SEnt K N T) : SRes K N T :=
+  if e.isSys && !sys then .fail true
+  else
+    let o := if so then v.owner else e.owner
+    if decide (o ≠ e.owner) && !sownerOk s o then .fail false
+    else .ok { s with ents := s.ents.put id { e with name := if sn then v.name else e.name,
+                                                      tags := if st then v.tags else e.tags,
+                                                      updated := .now, owner := o,
+                                                      level := match lvl with | some l => some l | none => e.level } }
+
+def sdelete (s : SSt K N T) (sys : Bool) (id : K) : SRes K N T :=
+  match s.ents.get id with
+  | none => .fail true
+  | some e => if e.isSys && !sys then .fail true else .ok { s with ents := s.ents.del id }
+
+/-- deleting a set of entities at once (cascade, DeleteWhere): refused as a whole — nothing is
+    deleted — when an ordinary context would thereby delete a system entity -/
+def sdeleteAll (s : SSt K N T) (sys : Bool) (ids : List K) : Option (SSt K N T) :=
+  if ids.any (srefused s sys) then none else some { s with ents := s.ents.delAll ids }
+
+def srefs (s : SSt K N T) (o : K) : List K := (s.ents.filter fun p => decide (p.2.owner = some o)).map (·.1)
+
+def Query.seval (q : Query K N) (e : SEnt K N T) : Bool :=
+  match q with
+  | .all => true
+  | .name n => decide (e.name = n)
+  | .owner o => decide (e.owner = some o)
+  -- the spec knows system / ordinary, not the storage form: `isSystem = true` finds the system
+  -- entities, `isSystem = false` finds nothing the property speaks about (ordinary entities carry no key)
+  | .flag b => b && e.isSys
+
+def smatching (s : SSt K N T) (q : Query K N) : List K := (s.ents.filter fun p => q.seval p.2).map (·.1)
+
+def sstep (s : SSt K N T) : Op K N T → SRes K N T
   | .create sys id blank v =>
-    if blank || (s.get id).isSome || (v.flag && !sys) then none
-    else some (s.put id { isSys := v.flag, name := v.name, tags := v.tags,
-                          created := if v.migrate then .given v.cAt else .now,
-                          updated := if v.migrate then .given v.uAt else .now })
-  | .update sys id v setName setTags =>
-    match s.get id with
-    | none => none
+    if blank || (s.ents.get id).isSome then .fail true
+    else if !sownerOk s v.owner || (v.flag && !sys) then .fail false
+    else .ok { s with ents := s.ents.put id (snew v v.flag none) }
+  | .ccreate sys id blank v lvl =>
+    if blank then .fail true
+    else match s.ents.get id with
     | some e =>
-      if e.isSys && !sys then none
-      else some (s.put id { e with name := if setName then v.name else e.name,
-                                   tags := if setTags then v.tags else e.tags,
-                                   updated := .now })
-  | .delete sys id =>
-    match s.get id with
-    | none => none
-    | some e => if e.isSys && !sys then none else some (s.del id)
-  | .read _ => some s
+      if e.level.isSome then .fail true
+      -- extending an existing entity re-creates its parent part: a system entity (and a create
+      -- carrying the flag) needs a system context
+      else if !sownerOk s v.owner || ((e.isSys || v.flag) && !sys) then .fail false
+      else .ok { s with ents := s.ents.put id (snew v (e.isSys || v.flag) (some lvl)) }
+    | none =>
+      if !sownerOk s v.owner || (v.flag && !sys) then .fail false
+      else .ok { s with ents := s.ents.put id (snew v v.flag (some lvl)) }
+  | .update sys id v sn st so =>
+    match s.ents.get id with
+    | none => .fail true
+    | some e => supdate s sys id v sn st so none e
+  | .cupdate sys id v sn st so sl lvl =>
+    match s.ents.get id with
+    | none => .fail true
+    | some e => if e.level.isNone then .fail true else supdate s sys id v sn st so (if sl then some lvl else none) e
+  | .delete sys id => sdelete s sys id
+  | .cdelete sys id => sdelete s sys id
+  | .ocreate id blank =>
+    if blank || decide (id ∈ s.owners) then .fail true else .ok { s with owners := id :: s.owners }
+  | .odelete sys id =>
+    if id ∈ s.owners then
+      match sdeleteAll s sys (srefs s id) with
+      | none => .fail false
+      | some s' => .ok { s' with owners := s'.owners.filter (· ≠ id) }
+    else .fail true
+  | .deleteWhere sys q =>
+    match sdeleteAll s sys (smatching s q) with
+    | none => .fail false
+    | some s' => .ok s'
+  -- links are outside the property (no context is involved): both ends must exist, and the entity
+  -- as the property sees it stays what it is (`put` of the unchanged entity: same map, the state is
+  -- an association list)
+  | .link sid oid =>
+    match s.ents.get sid with
+    | none => .fail true
+    | some e => if oid ∈ s.owners then .ok { s with ents := s.ents.put sid e } else .fail false
+  | .unlink sid _ =>
+    match s.ents.get sid with
+    | none => .fail true
+    | some e => .ok { s with ents := s.ents.put sid e }
+  | .read _ => .ok s
 
 end
 end StorageModel.C16
